@@ -98,6 +98,8 @@ func C01(r *core.Run) {
 		var lw sync.WaitGroup
 		lw.Add(1)
 		go func() { defer lw.Done(); c01Dependent(r, md, serverBin, agentBin) }()
+		lw.Add(1)
+		go func() { defer lw.Done(); c01LateAgent(r, md, serverBin, agentBin) }()
 		c01ShortTimeout(r, md, serverBin, agentBin)
 		lw.Wait()
 	}()
@@ -636,4 +638,81 @@ func c01Dependent(r *core.Run, md *fakes.Metadata, serverBin, agentBin string) {
 		}
 	}
 	judgeProcs(r, true, t.server, t.agent)
+}
+
+// c01LateAgent: clients queue up at the proxy while no agent is connected
+// (an agent restart, a deployment); when the agent arrives every waiting
+// client must get the response to its own request.
+func c01LateAgent(r *core.Run, md *fakes.Metadata, serverBin, agentBin string) {
+	backend, err := newTokBackend()
+	if err != nil {
+		r.Broken(err.Error())
+		return
+	}
+	defer backend.Srv.Close()
+	server, addr, err := startServer(r, serverBin, "server-late")
+	if err != nil {
+		r.Broken("late-agent lane: " + err.Error())
+		return
+	}
+	defer server.Kill()
+	n := r.Pick(1300, 2600)
+	type res struct {
+		tok string
+		err string
+		bad []string
+	}
+	out := make(chan res, n)
+	var wg sync.WaitGroup
+	for i := 0; i < n; i++ {
+		wg.Add(1)
+		go func(i int) {
+			defer wg.Done()
+			time.Sleep(time.Duration(i/100) * 20 * time.Millisecond) // arrive in waves of 100
+			tok := fmt.Sprintf("s%dwait%d", r.Seed, i)
+			cl := rawhttp.NewClient(addr, 60*time.Second)
+			defer cl.Close()
+			m, err := cl.Do(tokRequest("GET", tok, 64, 0, "h"+tok+".example", nil, nil), "GET")
+			x := res{tok: tok}
+			if err != nil {
+				x.err = err.Error()
+			} else {
+				x.bad = checkTokResponse(m, "GET", tok, 64)
+			}
+			out <- x
+		}(i)
+	}
+	// the agent arrives once the clients are waiting
+	time.Sleep(time.Duration(n/100)*20*time.Millisecond + 700*time.Millisecond)
+	agent, err := startAgent(r, agentBin, "agent-late", md, "http://"+addr+"/", backend.Srv.Addr(), "b-late")
+	if err != nil {
+		r.Broken("late-agent lane: " + err.Error())
+		return
+	}
+	defer agent.Kill()
+	wg.Wait()
+	close(out)
+	lost := 0
+	for x := range out {
+		switch {
+		case x.err != "":
+			lost++
+		case len(x.bad) > 0:
+			r.Violate("C01:client-saw-foreign-or-altered-response", fmt.Sprintf("late-agent lane: client %s: %v", x.tok, x.bad), nil, nil)
+		}
+	}
+	r.Cases(fmt.Sprintf("clients-waiting-for-a-late-agent=%d", n), n)
+	if lost > 0 {
+		// load gauge: the machine is not the reason when a fresh request is now served promptly
+		cl := rawhttp.NewClient(addr, 20*time.Second)
+		t0 := time.Now()
+		m, perr := cl.Do(tokRequest("GET", "lateprobe", 10, 0, "probe.example", nil, nil), "GET")
+		cl.Close()
+		if perr == nil && len(checkTokResponse(m, "GET", "lateprobe", 10)) == 0 && time.Since(t0) < 5*time.Second && agent.Alive() && server.Alive() {
+			r.Violate("C01:no-response:clients-waiting-for-a-late-agent", fmt.Sprintf("%d clients were waiting at the proxy when the agent connected: %d of them got no response within 60 s although a request sent afterwards was served in %v", n, lost, time.Since(t0).Round(time.Millisecond)), nil, nil)
+		} else {
+			r.Inconclusive(fmt.Sprintf("late-agent lane: %d of %d clients got no response; the follow-up probe did not pass either", lost, n))
+		}
+	}
+	judgeProcs(r, true, server, agent)
 }
